@@ -7,5 +7,15 @@ LEVEL = "other"
 THRESHOLDS = {("unif", 3, "double"): (6e-2, 5e-1), ("unif", 5, "double"): (2.6e-3, 5.2e-2), ("unif", 7, "double"): (1.2e-4, 5.3e-3), ("unif", 5, "float"): (2.6e-3, 5.2e-2)}
 
 
+XCFGS = [("unif", 5, "double", 0), ("unif", 5, "double", 1)]
+
+
 def run(rep, tier, seed, replay, proof_ok, proof_msg):
+    from props import numvar
+    if replay and any(ln.startswith("# xcfg=") for ln in open(replay)):
+        numvar.run_variants(rep, tier, seed, XCFGS, THRESHOLDS, "C05", "uniform kernel", replay=replay)
+        return
+    if not replay:
+        # the periodic (four-step sequence with the top tree) and the target/source variants against explicit image sums
+        numvar.run_variants(rep, tier, seed, XCFGS, THRESHOLDS, "C05", "uniform kernel")
     numfam.run_family(rep, tier, seed, replay, proof_ok, proof_msg, num.UNIF, THRESHOLDS, "C05", "uniform kernel")
